@@ -46,9 +46,9 @@ func c18GoValue(name string) any {
 }
 
 func c18Gen(c *vfCtx, emit func(c18Case)) {
-	maxLines := 3
+	maxLines := 4
 	if c.thorough() {
-		maxLines = 4
+		maxLines = 5
 	}
 	c.bound("line_alphabet", vfQ(c18Lines))
 	c.bound("max_lines", maxLines)
@@ -73,7 +73,7 @@ func c18Gen(c *vfCtx, emit func(c18Case)) {
 			return
 		}
 		for _, l := range c18Lines {
-			if !c.thorough() && len(acc) == 2 && (l == "b: x" || l == "[TestQ - 7]" || l == "x: $1 %d") {
+			if !c.thorough() && len(acc) >= 2 && (l == "b: x" || l == "[TestQ - 7]" || l == "x: $1 %d") {
 				continue
 			}
 			rec(append(append([]string{}, acc...), l))
